@@ -489,3 +489,46 @@ GNATN = 'src/ompl/datastructures/NearestNeighborsGNATNoThreadSafety.h'
 seed('c10-gnat-leaf-reserve-capacity-only', 'C10', [(GNATH, "data_.reserve(std::max((unsigned int)capacity, degree_) + 1);", "data_.reserve(capacity + 1);")], 'R10h')
 seed('c10-gnatnts-child-reserve-dropped', 'C10', [(GNATN, "                    child->data_.reserve(std::max(gnat.maxNumPtsPerLeaf_, child->degree_) + 1);\n", "")], 'R10h')
 seed('c10-n-gnat-leaf-reserve-commuted', 'C10', [(GNATH, "data_.reserve(std::max((unsigned int)capacity, degree_) + 1);", "data_.reserve(std::max(degree_, (unsigned int)capacity) + 1);")], None)
+
+# ---- round-4 rules --------------------------------------------------------------------------------------------------
+# R01q: EIT* multi-resolution check interpreted over a finite domain
+seed('c01-eit-skip-guard-ge', 'C01', [(EITC, "                if (currentCheck > performedChecks)", "                if (currentCheck >= performedChecks + 2u)")], 'R01q')
+seed('c01-eit-levelup-double', 'C01', [(EITC, "numSparseCollisionChecksCurrentLevel_ = (2u * numSparseCollisionChecksPreviousLevel_) + 1u;", "numSparseCollisionChecksCurrentLevel_ = (2u * numSparseCollisionChecksPreviousLevel_) + 2u;")], 'R01q')
+seed('c01-eit-whitelist-always', 'C01', [(EITC, "            if (segmentCount == fullSegmentCount)\n            {\n                ++numCollisionCheckedEdges_;", "            if (segmentCount <= fullSegmentCount)\n            {\n                ++numCollisionCheckedEdges_;")], 'R01q')
+seed('c01-eit-stored-resolution-plus-one', 'C01', [(EITC, "            edge.source->setIncomingCollisionCheckResolution(edge.target, currentCheck - 1u);\n            edge.target->setIncomingCollisionCheckResolution(edge.source, currentCheck - 1u);", "            edge.source->setIncomingCollisionCheckResolution(edge.target, currentCheck + 1u);\n            edge.target->setIncomingCollisionCheckResolution(edge.source, currentCheck + 1u);")], 'R01q')
+seed('c01-eit-invalid-not-blacklisted-back', 'C01', [(EITC, "                        edge.source->blacklist(edge.target);\n                        edge.target->blacklist(edge.source);\n", "                        edge.source->blacklist(edge.target);\n")], 'R01q')
+seed('c01-eit-setter-identity', 'C01', [(EITC, "            initialNumSparseCollisionChecks_ = nestedNumChecks;\n            numSparseCollisionChecksCurrentLevel_ = nestedNumChecks;", "            initialNumSparseCollisionChecks_ = numChecks;\n            numSparseCollisionChecksCurrentLevel_ = numChecks;")], 'R01q')
+seed('c01-n-eit-mid-roundup-free', 'C01', [(EITC, "                if (currentCheck > performedChecks)", "                if (performedChecks < currentCheck)")], None)
+# R01p: informed-tree admission
+seed('c01-bit-addedge-before-check', 'C01', [(BITC, "                            if (this->checkEdge(edge))\n                            {", "                            if (this->checkEdge(edge) || edge.first->isRoot())\n                            {")], 'R01p')
+seed('c01-ait-link-without-verdict', 'C01', [(AITC, "                if (parent->isWhitelistedAsChild(child) ||\n                    motionValidator_->checkMotion(parent->getState(), child->getState()))", "                if (parent->isWhitelistedAsChild(child) || child->isWhitelistedAsChild(parent) ||\n                    motionValidator_->checkMotion(parent->getState(), child->getState()))")], 'R01p')
+seed('c01-eit-link-before-isvalid', 'C01', [(EITC, "            if (isValid(edge))\n            {\n                // Compute the true edge cost and the target cost through this edge.", "            if (isValid(edge) || couldBeValid(edge))\n            {\n                // Compute the true edge cost and the target cost through this edge.")], 'R01p')
+# R01r: validated-prefix target
+seed('c01-kpiece-prefix-target-other', 'C01', [(KPI, "        std::pair<base::State *, double> fail(xstate, 0.0);", "        std::pair<base::State *, double> fail(existing->state, 0.0);")], 'R01r')
+seed('c01-n-bounce-target-via-local', 'C01', [(SI, "        lastValid.first = states[j];\n", "        State *candidate = states[j];\n        lastValid.first = states[j];\n        (void)candidate;\n")], None)
+# R01s / R04j generalised
+seed('c04-prm-approx-flag-dropped', 'C04', [(PRMC, "                closestVal = heuristicCost;\n                approxPathJustStart = true;", "                closestVal = heuristicCost;")], 'R04j')
+# R03q
+seed('c03-thunder-repair-not-cleared', 'C03', [('src/ompl/geometric/planners/experience/src/ThunderRetrieveRepair.cpp', "            repairProblemDef_->clearSolutionPaths();\n", "")], 'R03q')
+# R04l / R04m
+seed('c04-rrtstar-rewire-inccost-reversed', 'C04', [(RRTS, "                            nbh[i]->incCost = nbhIncCost;", "                            nbh[i]->incCost = incCosts[i];")], 'R04l')
+seed('c04-n-rrtstar-inccost-via-local', 'C04', [(RRTS, "                            nbh[i]->incCost = nbhIncCost;", "                            const base::Cost edgeInc = nbhIncCost;\n                            nbh[i]->incCost = edgeInc;")], None)
+seed('c04-ait-rewire-on-heuristic', 'C04', [(AITC, "                    if (objective_->isCostBetterThan(\n                            objective_->combineCosts(parent->getCostToComeFromStart(), edgeCost),\n                            child->getCostToComeFromStart()))", "                    if (objective_->isCostBetterThan(\n                            objective_->combineCosts(parent->getCostToComeFromStart(), objective_->motionCostHeuristic(parent->getState(), child->getState())),\n                            child->getCostToComeFromStart()))")], 'R04m')
+# R08e
+seed('c08-so3-identity-then-rescaled', 'C08', [(SO3C, "        if (nrmsq < 1e-6)\n            qstate->setIdentity();\n        else\n        {\n            double scale = 1.0 / std::sqrt(nrmsq);", "        if (nrmsq < 1e-6)\n            qstate->setIdentity();\n        {\n            double scale = 1.0 / std::sqrt(nrmsq);")], 'R08e')
+seed('c08-so3-w-not-scaled', 'C08', [(SO3C, "            double scale = 1.0 / std::sqrt(nrmsq);\n            qstate->x *= scale;\n            qstate->y *= scale;\n            qstate->z *= scale;\n            qstate->w *= scale;", "            double scale = 1.0 / std::sqrt(nrmsq);\n            qstate->x *= scale;\n            qstate->y *= scale;\n            qstate->z *= scale;")], 'R08e')
+# R09j
+seed('c09-substate-comparator-type-tiebreak', 'C09', [(SSP, "                return a.space->getName() > b.space->getName();", "                return a.space->getType() > b.space->getType();")], 'R09j')
+seed('c09-n-substate-comparator-name-ascending', 'C09', [(SSP, "                return a.space->getName() > b.space->getName();", "                return b.space->getName() < a.space->getName();")], None)
+# R10j
+seed('c10-gnat-metric-after-rebuild', 'C10', [(GNATH, "            pivotSelector_.setDistanceFunction(distFun);\n            if (tree_)\n                rebuildDataStructure();", "            if (tree_)\n                rebuildDataStructure();\n            pivotSelector_.setDistanceFunction(distFun);")], 'R10j')
+# R13e
+seed('c13-components-no-step-back', 'C13', [(GRID, "                            --index;\n                            q.erase(q.begin() + index);", "                            q.erase(q.begin() + index - 1);")], 'R13e')
+seed('c13-n-components-predecrement-inline', 'C13', [(GRID, "                            --index;\n                            q.erase(q.begin() + index);", "                            index -= 1;\n                            q.erase(q.begin() + index);")], None)
+# R15h
+seed('c15-phs-erase-then-increment', 'C15', [(PLDC, "                    phsIter = listPhsPtrs_.erase(phsIter);\n", "                    phsIter = listPhsPtrs_.erase(phsIter);\n                    ++phsIter;\n")], 'R15h')
+# R18h
+seed('c18-polling-latches', 'C18', [(PTC, "                while (!terminate_ && !signalThreadStop_)\n                {\n                    evalValue_ = fn_();", "                while (!terminate_ && !signalThreadStop_ && !evalValue_)\n                {\n                    evalValue_ = fn_();")], 'R18h')
+seed('c18-n-polling-demorgan', 'C18', [(PTC, "                while (!terminate_ && !signalThreadStop_)\n                {\n                    evalValue_ = fn_();", "                while (!(terminate_ || signalThreadStop_))\n                {\n                    evalValue_ = fn_();")], None)
+# R19a through a local reference
+seed('c19-gnat-scratch-through-reference', 'C19', [(GNATH, "        mutable std::atomic<std::size_t> offset_{0};", "        mutable std::atomic<std::size_t> offset_{0};\n        mutable std::vector<double> scratch_;"), (GNATH, "                    std::vector<double> distToPivot(sz);\n                    std::vector<int> permutation(sz);\n                    for (unsigned int i = 0; i < sz; ++i)\n                        permutation[i] = (i + offset) % sz;\n\n                    for (unsigned int i = 0; i < sz; ++i)\n                        if (permutation[i] >= 0)", "                    std::vector<double> &distToPivot = gnat.scratch_;\n                    distToPivot.resize(sz);\n                    std::vector<int> permutation(sz);\n                    for (unsigned int i = 0; i < sz; ++i)\n                        permutation[i] = (i + offset) % sz;\n\n                    for (unsigned int i = 0; i < sz; ++i)\n                        if (permutation[i] >= 0)")], 'R19a')
